@@ -29,9 +29,9 @@ KERNEL_STREAMS = ("domains", "clusters", "answer", "lconflict", "gwdup")
 # violation and every collision from admitted objects other than the ones below - still fails the run.
 # --- objects that pass admission validation (each class is decided on the shrunk mesh by a classifier below)
 KNOWN_ADMITTED = [
-    ("snapshot:addr-unique:admitted:service-port-equals-sidecar-virtual-listener-port",
-     "a service without an address (ServiceEntry without addresses, headless) with a non-HTTP port equal to the sidecar's own virtual listener "
-     "port (15001 / 15006) yields an outbound listener on the wildcard address of that port beside virtualOutbound / virtualInbound; Envoy "
+    ("snapshot:addr-unique:admitted:service-port-equals-sidecar-own-listener-port",
+     "a service without an address (ServiceEntry without addresses, headless) with a non-HTTP port equal to one of the sidecar's own listener "
+     "port (15001 virtualOutbound / 15006 virtualInbound / 15008 HBONE connect_termination) yields an outbound listener on the wildcard address of that port beside it; Envoy "
      "rejects it (duplicate address). conflictWithReservedListener only guards HTTP ports and explicit wildcard binds; the repair contradicts "
      "the unedited TestOutboundListenerConflictWithReservedListener",
      "snapshot.known-port-15001.ops"),
@@ -75,6 +75,8 @@ MUTATION = {
     "se-dup-ports": "ServiceEntry listing one port number (and one port name) twice",
     "se-endpoint-port-range": "ServiceEntry endpoint port map with port 0 / 70000 / unknown names",
     "gw-port-range": "Gateway server port 0 or 70000",
+    "gw-no-hosts": "Gateway TLS server without hosts (its filter chain matches everything, like another wildcard-host server of the port)",
+    "gw-simple-no-cert": "Gateway HTTPS server with TLS mode SIMPLE and no certificate, sharing its port with a plaintext server",
     "pa-port-range": "PeerAuthentication portLevelMtls for port 0 and 70000",
     "dr-negative-pool": "DestinationRule connectionPool / outlierDetection with negative durations and counts",
     "dr-empty-hash": "DestinationRule consistentHash with an empty httpHeaderName and minimumRingSize 9999999999",
@@ -104,11 +106,14 @@ KNOWN_INVALID_PAIRS = [  # (violated clause / API rule, mutation)
     ("dup-domain", "se-star-host"),
     ("dup-fcm", "pa-port-range"),
     ("dup-fcm", "se-dup-ports"),
+    ("dup-fcm", "gw-no-hosts"),
+    ("dup-fcm", "gw-simple-no-cert"),
     ("api-valid:SocketAddress.PortValue:_value_must_be_less_than_or_equal_to_N", "se-port-range"),
     ("api-valid:SocketAddress.PortValue:_value_must_be_less_than_or_equal_to_N", "gw-port-range"),
     ("api-valid:SocketAddress.Address:_value_length_must_be_at_least_N_runes", "se-nil-endpoint"),
     ("api-valid:SocketAddress.Address:_value_length_must_be_at_least_N_runes", "se-bad-endpoint-address"),
     ("api-valid:SocketAddress.Address:_value_length_must_be_at_least_N_runes", "se-garbage-hosts"),
+    ("api-valid:SocketAddress.Address:_value_length_must_be_at_least_N_runes", "we-empty-address"),
     ("api-valid:Route.Action:_value_is_required", "vs-redirect-and-route"),
     ("api-valid:HeaderValue.Key:_value_length_must_be_at_least_N_runes", "vs-bad-headers"),
     ("api-valid:HeaderMatcher.Name:_value_length_must_be_at_least_N_runes", "vs-empty-matchers"),
@@ -117,11 +122,9 @@ KNOWN_INVALID_PAIRS = [  # (violated clause / API rule, mutation)
     ("api-valid:RouteAction_HashPolicy_Header.HeaderName:_value_length_must_be_at_least_N_runes", "dr-empty-hash"),
 ]
 
-LOCAL_KNOWN = [(fp, what) for fp, what, _ in KNOWN_ADMITTED] + [
-    ("snapshot:%s:invalid-input:tag=%s" % (rule, mut),
-     "validator-rejected input loaded past validation: %s -> %s reaches the Envoy configuration unsanitised; Envoy rejects the response"
-     % (MUTATION[mut], RULE[rule]))
-    for rule, mut in KNOWN_INVALID_PAIRS]
+# Every known finding lives in /verif/known-findings.json (merged by the coordinator from notes/C14.known.json; a later
+# addition goes to notes/C14.known.delta.json). The tables above document the classes and drive the classifiers' texts only.
+LOCAL_KNOWN = []
 
 
 def install_local_known(ctx):
@@ -359,21 +362,21 @@ def classify_reserved_port(min_lines, verdict):
     """A service (registry service or ServiceEntry) of the minimal mesh has a port equal to one of the sidecar's own
     virtual listener ports, and the duplicated address is the wildcard address on that port."""
     from urllib.parse import unquote
-    m = re.search(r"bad addr-unique \S*?:(?:0\.0\.0\.0|%5B%3A%3A%5D|\[::\]):(15001|15006)$", verdict.strip())
+    m = re.search(r"bad addr-unique \S*?:(?:0\.0\.0\.0|%5B%3A%3A%5D|\[::\]):(15001|15006|15008)$", verdict.strip())
     if not m:
         return None
     port = int(m.group(1))
     for l in min_lines:
         f = l.split()
         if f[0] == "svc" and any(p.split("/")[1:2] == [str(port)] for p in unquote(f[4]).split(",")):
-            return "service-port-equals-sidecar-virtual-listener-port"
+            return "service-port-equals-sidecar-own-listener-port"
         if f[0] == "cfg" and f[1] == "ServiceEntry":
             try:
                 spec = json.loads(unquote(f[6]))
             except ValueError:
                 continue
             if any(p.get("number") == port for p in spec.get("ports", [])):
-                return "service-port-equals-sidecar-virtual-listener-port"
+                return "service-port-equals-sidecar-own-listener-port"
     return None
 
 
